@@ -22,6 +22,16 @@ pub fn set_mtime(path: &Path, tick: u64) {
     }
 }
 
+fn set_mtime_raw(path: &Path, ts: libc::timespec) {
+    use std::os::unix::ffi::OsStrExt;
+    if let Ok(c) = std::ffi::CString::new(path.as_os_str().as_bytes()) {
+        let times = [ts, ts];
+        unsafe {
+            libc::utimensat(libc::AT_FDCWD, c.as_ptr(), times.as_ptr(), 0);
+        }
+    }
+}
+
 pub fn get_mtime_tick(path: &Path) -> Option<i64> {
     use std::os::unix::fs::MetadataExt;
     std::fs::metadata(path).ok().map(|m| m.mtime() - MTIME_BASE)
@@ -104,6 +114,21 @@ pub fn apply_plain(root: &Path, vars_dir: &Path, op: &FsOp, clock: &mut u64) -> 
             }
             tick();
             set_mtime(&p, old.max(0) as u64);
+            vec![vec![p.clone()], vec![p.clone()], vec![p]]
+        }
+        FsOp::WriteOlder { path, content } => {
+            let p = abs(path);
+            let old = match get_mtime_tick(&p) {
+                Some(t) => t,
+                None => return vec![],
+            };
+            if std::fs::write(&p, content.as_bytes()).is_err() {
+                return vec![];
+            }
+            tick();
+            // logical mtimes start at tick 1; an "older revision" may predate every tick
+            let ts = libc::timespec { tv_sec: MTIME_BASE + old - 1000 - (*clock as i64 % 7), tv_nsec: 0 };
+            set_mtime_raw(&p, ts);
             vec![vec![p.clone()], vec![p.clone()], vec![p]]
         }
         FsOp::Create { path, content } => {
